@@ -80,6 +80,8 @@ Section P.
                    end).
   Definition live_part (i : nat) (C : list N) (cut : N) : list N := filter (mt i) (skipn (N.to_nat cut) C).
   Definition ideal (i : nat) (C : list N) (cut : N) (rq : req) : list N := hist_part i C cut rq ++ live_part i C cut.
+  (* the local transport keeps no history: whatever is requested, nothing is replayed *)
+  Definition eff_req (persistent : bool) (rq : req) : req := if persistent then rq else NoReq.
 
   Lemma scan_found i cut rq l : forall s,
     scan_rest i cut rq (entries_from s l) true = filter (mt i) (firstn (N.to_nat (cut + 1 - s)) l).
@@ -199,45 +201,45 @@ Section P.
   Qed.
 
   (* ---- the invariant ---- *)
-  Definition SubOk (C : list N) (idx : list nat) (cd : bool) (i : nat) (s : hsub) : Prop :=
+  Definition SubOk (p : bool) (C : list N) (idx : list nat) (cd : bool) (i : nat) (s : hsub) : Prop :=
     (N.to_nat (hs_cut s) <= length C)%nat /\ hs_closed s = hs_disc s /\
-    prefix (hs_sent s) (ideal i C (hs_cut s) (hs_req s)) /\
+    prefix (hs_sent s) (ideal i C (hs_cut s) (eff_req p (hs_req s))) /\
     match hs_phase s with
     | PNew | PAnnounced => hs_sent s = [] /\ hs_liveq s = [] /\ ~ In i idx /\ hs_ready s = false
     | PIndexed => In i idx /\ hs_ready s = false /\ hs_sent s = [] /\ (hs_disc s = false -> hs_liveq s = live_part i C (hs_cut s))
     | PScan snap found _ =>
         In i idx /\ hs_ready s = false /\
         (hs_disc s = false ->
-         hs_sent s ++ scan_rest i (hs_cut s) (hs_req s) snap found = hist_part i C (hs_cut s) (hs_req s) /\
+         hs_sent s ++ scan_rest i (hs_cut s) (hs_req s) snap found = hist_part i C (hs_cut s) (eff_req p (hs_req s)) /\
          hs_liveq s = live_part i C (hs_cut s))
     | PHistDone =>
         In i idx /\ hs_ready s = false /\
-        (hs_disc s = false -> hs_sent s = hist_part i C (hs_cut s) (hs_req s) /\ hs_liveq s = live_part i C (hs_cut s))
+        (hs_disc s = false -> hs_sent s = hist_part i C (hs_cut s) (eff_req p (hs_req s)) /\ hs_liveq s = live_part i C (hs_cut s))
     | PFlush rest =>
         In i idx /\ hs_ready s = false /\ hs_disc s = false /\
-        exists done, hs_liveq s = done ++ rest /\ hs_sent s = hist_part i C (hs_cut s) (hs_req s) ++ done /\
+        exists done, hs_liveq s = done ++ rest /\ hs_sent s = hist_part i C (hs_cut s) (eff_req p (hs_req s)) ++ done /\
                      hs_liveq s = live_part i C (hs_cut s)
-    | PLive _ => hs_disc s = false -> In i idx /\ hs_ready s = true /\ hs_sent s = ideal i C (hs_cut s) (hs_req s)
+    | PLive _ => hs_disc s = false -> In i idx /\ hs_ready s = true /\ hs_sent s = ideal i C (hs_cut s) (eff_req p (hs_req s))
     | PLeaving | PRemoved => hs_disc s = true
     | PGone => hs_disc s = true \/ ~ In i idx
-    | PRefused => In i idx -> cd = true
+    | PRefused => In i idx -> cd = true /\ p = true
     end.
 
   Definition Inv (st : hstate) : Prop :=
-    h_persistent st = true /\ h_size st = 0 /\ h_db st = entries_from 1 (h_committed st) /\
-    h_seq st = N.of_nat (length (h_committed st)) /\ h_lastseq st = h_seq st /\ NoDup (h_index st) /\
-    forall i s, nth_error (h_subs st) i = Some s -> SubOk (h_committed st) (h_index st) (h_closed_done st) i s.
+    (h_persistent st = true -> h_db st = entries_from 1 (h_committed st) /\ h_seq st = N.of_nat (length (h_committed st))) /\
+    h_size st = 0 /\ h_lastseq st = N.of_nat (length (h_committed st)) /\ NoDup (h_index st) /\
+    forall i s, nth_error (h_subs st) i = Some s -> SubOk (h_persistent st) (h_committed st) (h_index st) (h_closed_done st) i s.
 
   Lemma prefix_grow i C cut rq u l :
     (N.to_nat cut <= length C)%nat -> prefix l (ideal i C cut rq) -> prefix l (ideal i (C ++ [u]) cut rq).
   Proof. intros H P. rewrite ideal_grow by assumption. apply prefix_app_r. assumption. Qed.
 
   (* a subscriber untouched by a commit that it does not have to see *)
-  Lemma subok_commit_untouched C idx cd i s u :
-    SubOk C idx cd i s ->
+  Lemma subok_commit_untouched p C idx cd i s u :
+    SubOk p C idx cd i s ->
     (mt i u = false \/ hs_disc s = true \/ ~ In i idx) ->
     (match hs_phase s with PRefused => ~ In i idx | _ => True end) ->
-    SubOk (C ++ [u]) idx cd i s.
+    SubOk p (C ++ [u]) idx cd i s.
   Proof.
     intros (Hc & Hf & Hp & Hph) Hwhy Hr. unfold SubOk. rewrite app_length. cbn [length].
     split; [lia|]. split; [assumption|]. split; [apply prefix_grow; assumption|].
@@ -256,10 +258,10 @@ Section P.
     - (* PLive *) intros Hd. destruct (Hph Hd) as (A & B & E). repeat split; try assumption. rewrite ideal_grow by assumption.
       destruct Hwhy as [Hm|[Hx|Hx]]; [rewrite Hm, app_nil_r; auto|congruence|contradiction].
   Qed.
-  Lemma subok_commit_touched C idx cd i s u :
-    SubOk C idx cd i s -> mt i u = true -> In i idx -> hs_disc s = false ->
+  Lemma subok_commit_touched p C idx cd i s u :
+    SubOk p C idx cd i s -> mt i u = true -> In i idx -> hs_disc s = false ->
     (forall r, hs_phase s <> PFlush r) -> hs_phase s <> PRefused ->
-    SubOk (C ++ [u]) idx cd i (fst (s_dispatch s u false)).
+    SubOk p (C ++ [u]) idx cd i (fst (s_dispatch s u false)).
   Proof.
     intros (Hc & Hf & Hp & Hph) Hm Hin Hd Hnf Hnr. unfold Hub.s_dispatch. rewrite Hd. cbn [negb andb].
     destruct (hs_phase s) eqn:Ep; try (exfalso; tauto); try (exfalso; eapply Hnf; reflexivity); try congruence.
@@ -283,35 +285,38 @@ Section P.
 
   Lemma inv_publish st u coin st' : Inv st -> publish st u coin = (st', PubOk) -> Inv st'.
   Proof.
-    intros (Hp & Hz & Hdb & Hseq & Hls & ND & Hsubs). unfold Hub.publish. rewrite Hp, andb_true_r.
-    destruct (h_closed_done st) eqn:Ecd; [discriminate|].
+    intros (Hdbq & Hz & Hls & ND & Hsubs). unfold Hub.publish.
+    destruct (h_closed_done st && h_persistent st) eqn:Ecp; [discriminate|].
     destruct (Nat.eqb (h_close st) 2); [discriminate|].
     destruct (existsb _ (h_index st)) eqn:Efl; [discriminate|].
-    intros E. inversion E; subst; clear E. unfold Inv, set_subs. cbn.
-    rewrite Hz. cbn [N.eqb orb]. unfold retain. cbn [N.eqb orb].
-    split; [reflexivity|]. split; [reflexivity|].
-    split; [rewrite entries_from_app, Hdb; cbn [entries_from]; rewrite Hseq; do 3 f_equal; lia|].
-    split; [rewrite app_length, Hseq; cbn [length]; lia|]. split; [reflexivity|]. split; [assumption|].
-    intros j s' Hj. rewrite (fan_out_nth _ _ ND) in Hj.
-    destruct (nth_error (h_subs st) j) as [s|] eqn:Ej; [|discriminate]. inversion Hj; subst; clear Hj.
-    pose proof (Hsubs _ _ Ej) as Hok.
-    change (SubOk (h_committed st ++ [u]) (h_index st) (h_closed_done st) j (if mem_nat j (h_index st) && mt j u then fst (s_dispatch s u false) else s)).
-    rewrite Ecd in *.
-    assert (Hrf : match hs_phase s with PRefused => ~ In j (h_index st) | _ => True end).
-    { destruct (hs_phase s) eqn:Ep; try exact I. destruct Hok as (_ & _ & _ & Hr). rewrite Ep in Hr. intros Hin. specialize (Hr Hin). discriminate. }
-    destruct (mem_nat j (h_index st)) eqn:Em; cbn [andb].
-    - apply mem_nat_In in Em. destruct (mt j u) eqn:Emt.
-      + destruct (hs_disc s) eqn:Ed.
-        * unfold Hub.s_dispatch. rewrite Ed. cbn [fst]. apply subok_commit_untouched; auto.
-        * apply subok_commit_touched; auto.
-          -- intros r Ep.
-             assert (T : existsb (fun i => match nth_error (h_subs st) i with Some s0 => mt i u && flushing s0 | None => false end) (h_index st) = true).
-             { apply existsb_exists. exists j. split; [assumption|]. rewrite Ej, Emt. unfold flushing. rewrite Ep. reflexivity. }
-             congruence.
-          -- intros Ep. rewrite Ep in Hrf. contradiction.
-      + apply subok_commit_untouched; auto.
-    - apply subok_commit_untouched; auto. right. right. intros Hin. apply mem_nat_In in Hin. congruence.
+    intros E. inversion E; subst; clear E.
+    assert (Hsub' : forall j s', nth_error (fan_out (h_subs st) (h_index st) u) j = Some s' ->
+                    SubOk (h_persistent st) (h_committed st ++ [u]) (h_index st) (h_closed_done st) j s').
+    { intros j s' Hj. rewrite (fan_out_nth _ _ ND) in Hj.
+      destruct (nth_error (h_subs st) j) as [s|] eqn:Ej; [|discriminate]. inversion Hj; subst; clear Hj.
+      pose proof (Hsubs _ _ Ej) as Hok.
+      assert (Hrf : match hs_phase s with PRefused => ~ In j (h_index st) | _ => True end).
+      { destruct (hs_phase s) eqn:Ep; try exact I. destruct Hok as (_ & _ & _ & Hr). rewrite Ep in Hr. intros Hin.
+        destruct (Hr Hin) as [R1 R2]. rewrite R1, R2 in Ecp. discriminate. }
+      destruct (mem_nat j (h_index st)) eqn:Em; cbn [andb].
+      - apply mem_nat_In in Em. destruct (mt j u) eqn:Emt.
+        + destruct (hs_disc s) eqn:Ed.
+          * unfold Hub.s_dispatch. rewrite Ed. cbn [fst]. apply subok_commit_untouched; auto.
+          * apply subok_commit_touched; auto.
+            -- intros r Ep.
+               assert (T : existsb (fun i => match nth_error (h_subs st) i with Some s0 => mt i u && flushing s0 | None => false end) (h_index st) = true).
+               { apply existsb_exists. exists j. split; [assumption|]. rewrite Ej, Emt. unfold flushing. rewrite Ep. reflexivity. }
+               congruence.
+            -- intros Ep. rewrite Ep in Hrf. contradiction.
+        + apply subok_commit_untouched; auto.
+      - apply subok_commit_untouched; auto. right. right. intros Hin. apply mem_nat_In in Hin. congruence. }
+    destruct (h_persistent st) eqn:Hp; unfold Inv, set_subs; cbn.
+    - destruct (Hdbq eq_refl) as [Hdb Hseq]. rewrite Hz. unfold retain. cbn [N.eqb orb].
+      split; [intros _; split; [rewrite entries_from_app, Hdb; cbn [entries_from]; rewrite Hseq; do 3 f_equal; lia|rewrite app_length, Hseq; cbn [length]; lia]|].
+      split; [reflexivity|]. split; [rewrite app_length, Hseq; cbn [length]; lia|]. split; [assumption|]. exact Hsub'.
+    - split; [discriminate|]. split; [assumption|]. split; [rewrite app_length, Hls; cbn [length]; lia|]. split; [assumption|]. exact Hsub'.
   Qed.
+
   (* ---- frames ---- *)
   Lemma inv_log_event st i a : Inv st -> Inv (log_event st i a).
   Proof. intros H. exact H. Qed.
@@ -328,58 +333,58 @@ Section P.
     apply inv_log_event. eapply inv_publish; eassumption.
   Qed.
 
-  Lemma subok_idx C idx idx' cd j s : (In j idx <-> In j idx') -> SubOk C idx cd j s -> SubOk C idx' cd j s.
+  Lemma subok_idx p C idx idx' cd j s : (In j idx <-> In j idx') -> SubOk p C idx cd j s -> SubOk p C idx' cd j s.
   Proof.
     intros Hiff (A & B & D & E). split; [assumption|]. split; [assumption|]. split; [assumption|].
     destruct (hs_phase s); tauto.
   Qed.
 
-  Lemma subok_cd C idx j s : SubOk C idx false j s -> SubOk C idx true j s.
+  Lemma subok_cd p C idx j s : SubOk p C idx false j s -> SubOk p C idx true j s.
   Proof.
     intros (A & B & D & E). split; [assumption|]. split; [assumption|]. split; [assumption|].
-    destruct (hs_phase s); try assumption. intros _. reflexivity.
+    destruct (hs_phase s); try assumption. intros Hin. destruct (E Hin) as [X _]. discriminate.
   Qed.
 
   (* replace subscriber i and the index *)
   Lemma inv_replace st i s' idx' :
     Inv st -> NoDup idx' -> (forall j, j <> i -> (In j (h_index st) <-> In j idx')) ->
-    SubOk (h_committed st) idx' (h_closed_done st) i s' ->
+    SubOk (h_persistent st) (h_committed st) idx' (h_closed_done st) i s' ->
     Inv (set_sub (set_index st idx') i s').
   Proof.
-    intros (Hp & Hz & Hdb & Hseq & Hls & ND & Hsubs) ND' Hiff Hi.
+    intros (Hdbq & Hz & Hls & ND & Hsubs) ND' Hiff Hi.
     unfold Inv, set_sub, set_subs, set_index. cbn.
     repeat (split; [assumption|]).
     intros j sj Hj. apply nth_upd_cases in Hj. destruct Hj as [(<- & -> & _)|(Hne & Hj)]; [exact Hi|].
     eapply subok_idx; [apply Hiff; congruence|]. apply Hsubs. assumption.
   Qed.
 
-  Lemma inv_set_sub st i s' : Inv st -> SubOk (h_committed st) (h_index st) (h_closed_done st) i s' -> Inv (set_sub st i s').
+  Lemma inv_set_sub st i s' : Inv st -> SubOk (h_persistent st) (h_committed st) (h_index st) (h_closed_done st) i s' -> Inv (set_sub st i s').
   Proof.
     intros H Hi. pose proof (inv_replace st i s' (h_index st) H) as R.
-    destruct H as (_ & _ & _ & _ & _ & ND & _). specialize (R ND (fun j _ => iff_refl _) Hi). exact R.
+    destruct H as (_ & _ & _ & ND & _). specialize (R ND (fun j _ => iff_refl _) Hi). exact R.
   Qed.
 
   Lemma inv_set_phase st i s p :
     Inv st -> nth_error (h_subs st) i = Some s ->
-    SubOk (h_committed st) (h_index st) (h_closed_done st) i (with_phase s p) -> Inv (set_phase st i p).
+    SubOk (h_persistent st) (h_committed st) (h_index st) (h_closed_done st) i (with_phase s p) -> Inv (set_phase st i p).
   Proof. intros H E Hi. unfold set_phase. rewrite E. apply inv_set_sub; assumption. Qed.
 
   (* after an event dispatched on behalf of subscriber i, i is where it was *)
   Lemma after_event st i s a c st1 :
     Inv st -> nth_error (h_subs st) i = Some s -> add_event st i a c = Some st1 ->
-    Inv st1 /\ h_index st1 = h_index st /\ h_closed_done st1 = h_closed_done st /\
+    Inv st1 /\ h_index st1 = h_index st /\ h_closed_done st1 = h_closed_done st /\ h_persistent st1 = h_persistent st /\
     exists s1, nth_error (h_subs st1) i = Some s1 /\ hs_phase s1 = hs_phase s /\
-               SubOk (h_committed st1) (h_index st1) (h_closed_done st1) i s1.
+               SubOk (h_persistent st1) (h_committed st1) (h_index st1) (h_closed_done st1) i s1.
   Proof.
     intros H E Ea. pose proof (inv_add_event _ _ _ _ _ H Ea) as H1.
-    destruct (add_event_frame mt cap tracking _ _ _ _ _ Ea) as (Ph & _ & _ & _ & Hc & Hi & _).
-    split; [assumption|]. split; [assumption|]. split; [unfold h_closed_done; rewrite Hc; reflexivity|].
+    destruct (add_event_frame mt cap tracking _ _ _ _ _ Ea) as (Ph & _ & _ & _ & Hc & Hi & _ & Hper).
+    split; [assumption|]. split; [assumption|]. split; [unfold h_closed_done; rewrite Hc; reflexivity|]. split; [assumption|].
     destruct (phases_nth _ _ _ _ Ph E) as (s1 & E1 & P1). exists s1. split; [assumption|]. split; [assumption|].
-    destruct H1 as (_ & _ & _ & _ & _ & _ & Hs). apply Hs. assumption.
+    destruct H1 as (_ & _ & _ & _ & Hs). apply Hs. assumption.
   Qed.
 
-  Lemma subok_cutoff C idx cd i s :
-    SubOk C idx cd i s -> (forall r, hs_phase s <> PFlush r) -> SubOk C idx cd i (s_cutoff s).
+  Lemma subok_cutoff p C idx cd i s :
+    SubOk p C idx cd i s -> (forall r, hs_phase s <> PFlush r) -> SubOk p C idx cd i (s_cutoff s).
   Proof.
     intros (A & B & D & E) Hnf. unfold SubOk, s_cutoff. sproj.
     split; [assumption|]. split; [reflexivity|]. split; [assumption|].
@@ -391,23 +396,23 @@ Section P.
     - discriminate.
   Qed.
 
-  Lemma subok_disconnect C idx cd i s :
-    SubOk C idx cd i s -> (forall r, hs_phase s <> PFlush r) -> SubOk C idx cd i (s_disconnect s).
+  Lemma subok_disconnect p C idx cd i s :
+    SubOk p C idx cd i s -> (forall r, hs_phase s <> PFlush r) -> SubOk p C idx cd i (s_disconnect s).
   Proof. intros H Hnf. unfold s_disconnect. destruct (hs_disc s); [assumption|]. apply subok_cutoff; assumption. Qed.
   Lemma inv_sub_step st i s c st' :
     Inv st -> nth_error (h_subs st) i = Some s -> sub_step st i s c = Some st' -> Inv st'.
   Proof.
-    intros H E. pose proof H as (Hp & Hz & Hdb & Hseq & Hls & ND & Hsubs). pose proof (Hsubs _ _ E) as Hok.
+    intros H E. pose proof H as (Hdbq & Hz & Hls & ND & Hsubs). pose proof (Hsubs _ _ E) as Hok.
     unfold Hub.sub_step. destruct (hs_phase s) eqn:Ep.
     - (* PNew *)
       destruct (add_event st i true c) as [st1|] eqn:Ea; [|discriminate]. cbn [option_map]. intros E'; inversion E'; subst; clear E'.
-      destruct (after_event _ _ _ _ _ _ H E Ea) as (H1 & Hi & Hcd & s1 & E1 & P1 & Ok1).
+      destruct (after_event _ _ _ _ _ _ H E Ea) as (H1 & Hi & Hcd & Hper & s1 & E1 & P1 & Ok1).
       eapply inv_set_phase; [assumption|eassumption|].
       destruct Ok1 as (A & B & D & F). rewrite P1, Ep in F. unfold SubOk, with_phase. sproj. auto.
     - (* PAnnounced *)
       destruct (h_closed st).
       + destruct (add_event st i false c) as [st1|] eqn:Ea; [|discriminate]. cbn [option_map]. intros E'; inversion E'; subst; clear E'.
-        destruct (after_event _ _ _ _ _ _ H E Ea) as (H1 & Hi & Hcd & s1 & E1 & P1 & Ok1).
+        destruct (after_event _ _ _ _ _ _ H E Ea) as (H1 & Hi & Hcd & Hper & s1 & E1 & P1 & Ok1).
         eapply inv_set_phase; [assumption|eassumption|].
         destruct Ok1 as (A & B & D & F). rewrite P1, Ep in F. unfold SubOk, with_phase. sproj.
         spl. intros Hin. exfalso. tauto.
@@ -415,32 +420,35 @@ Section P.
         destruct Hok as (A & B & D & F). rewrite Ep in F. destruct F as (F1 & F2 & F3 & F4).
         apply inv_replace; [assumption|apply NoDup_app_one; assumption| |].
         * intros j Hj. rewrite in_app_iff. cbn [In]. split; [auto|]. intros [?|[?|[]]]; [assumption|congruence].
-        * unfold SubOk. sproj. rewrite Hls, Hseq, Nat2N.id. split; [lia|]. split; [assumption|].
+        * unfold SubOk. sproj. rewrite Hls, Nat2N.id. split; [lia|]. split; [assumption|].
           rewrite F1. split; [apply prefix_nil|]. split; [apply in_or_app; right; left; reflexivity|].
           split; [assumption|]. split; [reflexivity|]. intros _. rewrite F2, live_part_all. reflexivity.
     - (* PIndexed *)
-      rewrite Hp. destruct Hok as (A & B & D & F). rewrite Ep in F. destruct F as (F1 & F2 & F3 & F4).
-      destruct (hs_req s) eqn:Er.
-      + intros E'; inversion E'; subst; clear E'. apply inv_set_sub; [assumption|].
-        unfold SubOk, with_phase. sproj. rewrite ?Er. spl. intros Hd. split; [rewrite F3; reflexivity|auto].
-      + destruct (h_closed_done st) eqn:Ecd.
-        * destruct (add_event st i false c) as [st1|] eqn:Ea; [|discriminate]. cbn [option_map]. intros E'; inversion E'; subst; clear E'.
-          destruct (after_event _ _ _ _ _ _ H E Ea) as (H1 & Hi & Hcd & s1 & E1 & P1 & Ok1).
-          eapply inv_set_phase; [assumption|eassumption|].
-          destruct Ok1 as (A1 & B1 & D1 & G). unfold SubOk, with_phase. sproj.
-          spl. intros _. rewrite Hcd. exact Ecd.
+      destruct Hok as (A & B & D & F). rewrite Ep in F. destruct F as (F1 & F2 & F3 & F4).
+      destruct (h_persistent st) eqn:Hp.
+      + destruct (Hdbq eq_refl) as [Hdb Hseq]. cbn [eff_req] in D. destruct (hs_req s) eqn:Er.
         * intros E'; inversion E'; subst; clear E'. apply inv_set_sub; [assumption|].
-          unfold SubOk, with_phase. sproj. rewrite ?Er. spl. intros Hd. rewrite F3, Hdb. cbn [app].
-          split; [apply (scan_whole i (hs_cut s) Earliest); discriminate|auto].
-      + destruct (h_closed_done st) eqn:Ecd.
-        * destruct (add_event st i false c) as [st1|] eqn:Ea; [|discriminate]. cbn [option_map]. intros E'; inversion E'; subst; clear E'.
-          destruct (after_event _ _ _ _ _ _ H E Ea) as (H1 & Hi & Hcd & s1 & E1 & P1 & Ok1).
-          eapply inv_set_phase; [assumption|eassumption|].
-          destruct Ok1 as (A1 & B1 & D1 & G). unfold SubOk, with_phase. sproj.
-          spl. intros _. rewrite Hcd. exact Ecd.
-        * intros E'; inversion E'; subst; clear E'. apply inv_set_sub; [assumption|].
-          unfold SubOk, with_phase. sproj. rewrite ?Er. spl. intros Hd. rewrite F3, Hdb. cbn [app].
-          split; [apply (scan_whole i (hs_cut s) (ReqId id)); discriminate|auto].
+          unfold SubOk, with_phase. sproj. rewrite ?Er, ?Hp. cbn [eff_req]. spl. intros Hd. split; [rewrite F3; reflexivity|auto].
+        * destruct (h_closed_done st) eqn:Ecd.
+          -- destruct (add_event st i false c) as [st1|] eqn:Ea; [|discriminate]. cbn [option_map]. intros E'; inversion E'; subst; clear E'.
+             destruct (after_event _ _ _ _ _ _ H E Ea) as (H1 & Hi & Hcd & Hper & s1 & E1 & P1 & Ok1).
+             eapply inv_set_phase; [assumption|eassumption|].
+             destruct Ok1 as (A1 & B1 & D1 & G). unfold SubOk, with_phase. sproj.
+             spl. intros _. rewrite Hcd, Hper, Hp. auto.
+          -- intros E'; inversion E'; subst; clear E'. apply inv_set_sub; [assumption|].
+             unfold SubOk, with_phase. sproj. rewrite ?Er, ?Hp. cbn [eff_req]. spl. intros Hd. rewrite F3, Hdb. cbn [app].
+             split; [apply (scan_whole i (hs_cut s) Earliest); discriminate|auto].
+        * destruct (h_closed_done st) eqn:Ecd.
+          -- destruct (add_event st i false c) as [st1|] eqn:Ea; [|discriminate]. cbn [option_map]. intros E'; inversion E'; subst; clear E'.
+             destruct (after_event _ _ _ _ _ _ H E Ea) as (H1 & Hi & Hcd & Hper & s1 & E1 & P1 & Ok1).
+             eapply inv_set_phase; [assumption|eassumption|].
+             destruct Ok1 as (A1 & B1 & D1 & G). unfold SubOk, with_phase. sproj.
+             spl. intros _. rewrite Hcd, Hper, Hp. auto.
+          -- intros E'; inversion E'; subst; clear E'. apply inv_set_sub; [assumption|].
+             unfold SubOk, with_phase. sproj. rewrite ?Er, ?Hp. cbn [eff_req]. spl. intros Hd. rewrite F3, Hdb. cbn [app].
+             split; [apply (scan_whole i (hs_cut s) (ReqId id)); discriminate|auto].
+      + cbn [eff_req] in D. destruct (hs_req s) eqn:Er; intros E'; inversion E'; subst; clear E'; (apply inv_set_sub; [assumption|]);
+          unfold SubOk, with_phase; sproj; rewrite ?Er, ?Hp; cbn [eff_req]; spl; intros Hd; (split; [rewrite F3; reflexivity|auto]).
     - (* PScan *)
       destruct Hok as (A & B & D & F). rewrite Ep in F. destruct F as (F1 & F2 & F3).
       destruct snap as [|[sq id] snap'].
@@ -500,7 +508,7 @@ Section P.
         * unfold SubOk, with_phase. sproj. auto.
     - (* PRemoved *)
       destruct (add_event st i false c) as [st1|] eqn:Ea; [|discriminate]. cbn [option_map]. intros E'; inversion E'; subst; clear E'.
-      destruct (after_event _ _ _ _ _ _ H E Ea) as (H1 & Hi & Hcd & s1 & E1 & P1 & Ok1).
+      destruct (after_event _ _ _ _ _ _ H E Ea) as (H1 & Hi & Hcd & Hper & s1 & E1 & P1 & Ok1).
       apply inv_metrics. eapply inv_set_phase; [assumption|eassumption|].
       destruct Ok1 as (A & B & D & F). rewrite P1, Ep in F. unfold SubOk, with_phase. sproj. auto.
     - discriminate.
@@ -508,7 +516,7 @@ Section P.
   Qed.
   Lemma inv_recv st i s st' : Inv st -> nth_error (h_subs st) i = Some s -> recv_step st i s = Some st' -> Inv st'.
   Proof.
-    intros H E. pose proof H as (Hp & Hz & Hdb & Hseq & Hls & ND & Hsubs). pose proof (Hsubs _ _ E) as (A & B & D & F).
+    intros H E. pose proof H as (Hdbq & Hz & Hls & ND & Hsubs). pose proof (Hsubs _ _ E) as (A & B & D & F).
     unfold recv_step. destruct (hs_phase s) eqn:Ep; try discriminate.
     destruct (hs_out s) as [|u o].
     - destruct (hs_closed s) eqn:Ec; [|discriminate]. intros E'; inversion E'; subst; clear E'.
@@ -519,10 +527,10 @@ Section P.
 
   Lemma inv_leave st i s st' : Inv st -> nth_error (h_subs st) i = Some s -> leave_step st i s = Some st' -> Inv st'.
   Proof.
-    intros H E. pose proof H as (Hp & Hz & Hdb & Hseq & Hls & ND & Hsubs). pose proof (Hsubs _ _ E) as Hok.
+    intros H E. pose proof H as (Hdbq & Hz & Hls & ND & Hsubs). pose proof (Hsubs _ _ E) as Hok.
     unfold leave_step. destruct (hs_phase s) eqn:Ep; try discriminate. intros E'; inversion E'; subst; clear E'.
     apply inv_set_sub; [assumption|].
-    assert (Hd : SubOk (h_committed st) (h_index st) (h_closed_done st) i (s_disconnect s)).
+    assert (Hd : SubOk (h_persistent st) (h_committed st) (h_index st) (h_closed_done st) i (s_disconnect s)).
     { apply subok_disconnect; [assumption|]. intros r. rewrite Ep. discriminate. }
     destruct Hd as (A & B & D & F).
     assert (Hdisc : hs_disc (s_disconnect s) = true).
@@ -532,7 +540,7 @@ Section P.
 
   Lemma inv_close st st' : Inv st -> close_step st = Some st' -> Inv st'.
   Proof.
-    intros H. pose proof H as (Hp & Hz & Hdb & Hseq & Hls & ND & Hsubs).
+    intros H. pose proof H as (Hdbq & Hz & Hls & ND & Hsubs).
     unfold close_step. destruct (h_close st) as [|[|[|n]]] eqn:Ec; try discriminate.
     - intros E'; inversion E'; subst; clear E'. unfold Inv, set_close. cbn.
       repeat (split; [assumption|]). intros j sj Hj. specialize (Hsubs _ _ Hj). unfold h_closed_done in Hsubs. rewrite Ec in Hsubs. exact Hsubs.
@@ -553,9 +561,10 @@ Section P.
 
   Lemma inv_crash st : Inv st -> Inv (crash st).
   Proof.
-    intros (Hp & Hz & Hdb & Hseq & Hls & ND & Hsubs). unfold Inv, crash. cbn. rewrite Hp.
-    split; [reflexivity|]. split; [assumption|]. split; [assumption|]. split; [assumption|].
-    split; [rewrite Hdb, Hseq; apply (entries_from_last 0)|]. split; [constructor|].
+    intros (Hdbq & Hz & Hls & ND & Hsubs). unfold Inv, crash. cbn.
+    split; [intros Hp; rewrite Hp; apply Hdbq; assumption|]. split; [assumption|].
+    split; [destruct (h_persistent st) eqn:Hp; [|reflexivity]; destruct (Hdbq eq_refl) as [Hdb Hseq]; rewrite Hdb; apply (entries_from_last 0)|].
+    split; [constructor|].
     intros j sj Hj. rewrite nth_error_map in Hj. destruct (nth_error (h_subs st) j) as [s|] eqn:Ej; [|discriminate].
     inversion Hj; subst; clear Hj. destruct (Hsubs _ _ Ej) as (A & B & D & F).
     destruct (hs_phase s) eqn:Ep; unfold SubOk, with_phase; sproj; rewrite ?Ep; spl; auto; try (intros []); try (right; intros []).
@@ -581,16 +590,72 @@ Section P.
     - apply inv_crash. exact H.
   Qed.
 
-  Theorem inv_reachable reqs pubs sched : Inv (w_st (wrun mt cap tracking (winit true 0 reqs pubs) sched)).
+  Theorem inv_reachable persistent reqs pubs sched : Inv (w_st (wrun mt cap tracking (winit persistent 0 reqs pubs) sched)).
   Proof.
     unfold Hub.wrun.
-    assert (H0 : Inv (w_st (winit true 0 reqs pubs))).
-    { unfold Inv. cbn. repeat (split; [reflexivity|]). split; [constructor|].
+    assert (H0 : Inv (w_st (winit persistent 0 reqs pubs))).
+    { unfold Inv. cbn. split; [intros _; split; reflexivity|]. split; [reflexivity|]. split; [reflexivity|]. split; [constructor|].
       intros i s Hi. rewrite nth_error_map in Hi. destruct (nth_error reqs i); [|discriminate]. inversion Hi; subst.
       unfold SubOk, new_sub. sproj. cbn [length N.to_nat]. split; [lia|]. split; [reflexivity|]. split; [apply prefix_nil|]. auto. }
-    revert H0. generalize (winit true 0 reqs pubs).
+    revert H0. generalize (winit persistent 0 reqs pubs).
     induction sched as [|a sched IH]; intros w H0; [exact H0|]. cbn. apply IH. apply inv_wstep. assumption.
   Qed.
+
+  (* the persistent flag never changes *)
+  Lemma persistent_wstep w a : h_persistent (w_st (wstep mt cap tracking w a)) = h_persistent (w_st w).
+  Proof.
+    destruct a as [t|t coin|i coin|i|i| |]; cbn [Hub.wstep].
+    - destruct (nth_error (w_pubs w) t) as [p|]; [|reflexivity].
+      destruct (pb_todo p); [reflexivity|]. destruct (pb_checked p); [reflexivity|]. destruct (h_closed (w_st w)); reflexivity.
+    - destruct (nth_error (w_pubs w) t) as [p|]; [|reflexivity].
+      destruct (pb_todo p) as [|u todo]; [reflexivity|]. destruct (pb_checked p); [|reflexivity].
+      destruct (publish (w_st w) u coin) as [st' []] eqn:Ep; cbn [set_pub w_st]; try reflexivity.
+      destruct (publish_frame mt cap _ _ _ _ _ Ep) as (_ & _ & _ & _ & _ & _ & _ & _ & J). exact J.
+    - destruct (nth_error (h_subs (w_st w)) i) as [s|] eqn:E; [|reflexivity].
+      destruct (sub_step (w_st w) i s coin) as [st'|] eqn:Es; [|reflexivity]. cbn [w_st].
+      unfold Hub.sub_step in Es.
+      assert (G : forall st0 i0 a0 c0 st1 p0, add_event st0 i0 a0 c0 = Some st1 -> h_persistent (set_phase st1 i0 p0) = h_persistent st0).
+      { intros st0 i0 a0 c0 st1 p0 Ea. destruct (add_event_frame mt cap tracking _ _ _ _ _ Ea) as (_ & _ & _ & _ & _ & _ & _ & J).
+        unfold set_phase. destruct (nth_error (h_subs st1) i0); exact J. }
+      destruct (hs_phase s).
+      all: repeat match type of Es with
+           | context [match ?x with _ => _ end] =>
+               lazymatch x with
+               | add_event _ _ _ _ => fail
+               | context [match _ with _ => _ end] => fail
+               | _ => destruct x eqn:?; try discriminate
+               end
+           | context [if ?x then _ else _] => destruct x eqn:?; try discriminate
+           end.
+      all: try (match type of Es with
+                | option_map _ (add_event ?st0 ?i0 ?a0 ?c0) = Some _ =>
+                    destruct (add_event st0 i0 a0 c0) as [st1|] eqn:Eev; [|discriminate];
+                    cbn in Es; inversion Es; subst; clear Es; try (unfold metrics; cbn [h_persistent]); (etransitivity; [eapply G; eassumption|first [reflexivity|assumption]])
+                end; fail).
+      all: inversion Es; subst; cbn; try reflexivity; try assumption; try congruence.
+    - destruct (nth_error (h_subs (w_st w)) i) as [s|] eqn:E; [|reflexivity].
+      destruct (recv_step (w_st w) i s) as [st'|] eqn:Es; [|reflexivity]. cbn [w_st].
+      unfold recv_step in Es. destruct (hs_phase s); try discriminate.
+      destruct (hs_out s); [destruct (hs_closed s); [|discriminate]|]; inversion Es; subst; reflexivity.
+    - destruct (nth_error (h_subs (w_st w)) i) as [s|] eqn:E; [|reflexivity].
+      destruct (leave_step (w_st w) i s) as [st'|] eqn:Es; [|reflexivity]. cbn [w_st].
+      unfold leave_step in Es. destruct (hs_phase s); try discriminate. inversion Es; subst; reflexivity.
+    - destruct (close_step (w_st w)) as [st'|] eqn:Es; [|reflexivity]. cbn [w_st].
+      unfold close_step in Es. destruct (h_close (w_st w)) as [|[|[|]]]; try discriminate.
+      + inversion Es; subst; reflexivity.
+      + destruct (existsb _ (h_index (w_st w))); [discriminate|]. inversion Es; subst; reflexivity.
+      + destruct (h_persistent (w_st w) && _); [discriminate|]. inversion Es; subst; reflexivity.
+    - reflexivity.
+  Qed.
+
+  Lemma persistent_reachable persistent size reqs pubs sched :
+    h_persistent (w_st (wrun mt cap tracking (winit persistent size reqs pubs) sched)) = persistent.
+  Proof.
+    unfold Hub.wrun. assert (H0 : h_persistent (w_st (winit persistent size reqs pubs)) = persistent) by reflexivity.
+    revert H0. generalize (winit persistent size reqs pubs).
+    induction sched as [|a sched IH]; intros w H0; [exact H0|]. cbn. apply IH. rewrite persistent_wstep. exact H0.
+  Qed.
+
   (* ---- FIFO: what the handler has written, then what is buffered, is what was sent ---- *)
   Definition fifo (i : nat) (s : hsub) : Prop := hs_sent s = hs_recvd s ++ hs_out s.
   Definition Fifo (st : hstate) : Prop := AllSubs fifo st.
@@ -762,24 +827,25 @@ Section P.
   (* ---- the statements of C06 / C07 ---- *)
   Notation wrun := (wrun mt cap tracking).
 
-  Theorem replay_then_live reqs pubs sched i s :
-    let st := w_st (wrun (winit true 0 reqs pubs) sched) in
+  Theorem replay_then_live persistent reqs pubs sched i s :
+    let st := w_st (wrun (winit persistent 0 reqs pubs) sched) in
     nth_error (h_subs st) i = Some s ->
-    let target := ideal i (h_committed st) (hs_cut s) (hs_req s) in
+    let target := ideal i (h_committed st) (hs_cut s) (eff_req persistent (hs_req s)) in
     (N.to_nat (hs_cut s) <= length (h_committed st))%nat /\
     prefix (hs_sent s) target /\ prefix (hs_recvd s) target /\ hs_sent s = hs_recvd s ++ hs_out s /\
     (forall left, hs_phase s = PLive left -> hs_disc s = false -> hs_sent s = target).
   Proof.
-    intros st E target. destruct (inv_reachable reqs pubs sched) as (_ & _ & _ & _ & _ & _ & Hs).
-    destruct (Hs _ _ E) as (A & B & D & F). pose proof (fifo_reachable true 0 reqs pubs sched _ _ E) as Hf. unfold fifo in Hf.
+    intros st E target. destruct (inv_reachable persistent reqs pubs sched) as (_ & _ & _ & _ & Hs).
+    destruct (Hs _ _ E) as (A & B & D & F). fold st in D, F. unfold target. rewrite <- (persistent_reachable persistent 0 reqs pubs sched). fold st.
+    pose proof (fifo_reachable persistent 0 reqs pubs sched _ _ E) as Hf. unfold fifo in Hf.
     split; [assumption|]. split; [assumption|]. split; [eapply prefix_trans; [|exact D]; rewrite Hf; apply prefix_app|].
-    split; [assumption|]. intros left Ep Hd. fold st in F. rewrite Ep in F. destruct (F Hd) as (_ & _ & G). exact G.
+    split; [assumption|]. intros left Ep Hd. rewrite Ep in F. destruct (F Hd) as (_ & _ & G). exact G.
   Qed.
 
   Theorem stored_order_is_commit_order reqs pubs sched :
     let st := w_st (wrun (winit true 0 reqs pubs) sched) in
     h_db st = entries_from 1 (h_committed st) /\ h_seq st = N.of_nat (length (h_committed st)).
-  Proof. intros st. destruct (inv_reachable reqs pubs sched) as (_ & _ & A & B & _). auto. Qed.
+  Proof. intros st. destruct (inv_reachable true reqs pubs sched) as (A & _). apply A. apply (persistent_reachable true 0 reqs pubs sched). Qed.
 
   Lemma grows_run w sched : I09 (w_st w) -> grows (w_st w) (w_st (wrun w sched)).
   Proof.
@@ -817,23 +883,23 @@ Section P.
   Proof. intros [r ->] H. apply NoDup_app_l in H. assumption. Qed.
 
   (* exactly once: if the committed ids are distinct, nothing is sent (or received) twice *)
-  Theorem exactly_once reqs pubs sched i s :
-    let st := w_st (wrun (winit true 0 reqs pubs) sched) in
+  Theorem exactly_once persistent reqs pubs sched i s :
+    let st := w_st (wrun (winit persistent 0 reqs pubs) sched) in
     nth_error (h_subs st) i = Some s -> NoDup (h_committed st) -> NoDup (hs_sent s) /\ NoDup (hs_recvd s).
   Proof.
-    intros st E ND. destruct (replay_then_live reqs pubs sched i s E) as (Hc & P1 & P2 & _).
-    destruct (ideal_is_suffix i (h_committed st) (hs_cut s) (hs_req s) Hc) as (k & _ & Ek & _).
+    intros st E ND. destruct (replay_then_live persistent reqs pubs sched i s E) as (Hc & P1 & P2 & _).
+    destruct (ideal_is_suffix i (h_committed st) (hs_cut s) (eff_req persistent (hs_req s)) Hc) as (k & _ & Ek & _).
     fold st in P1, P2. rewrite Ek in P1, P2.
     split; eapply NoDup_prefix; try eassumption; apply NoDup_filter, NoDup_skipn; assumption.
   Qed.
   (* live delivery: a subscriber that is live and was not cut off has been sent, after its replay, exactly the matching
      updates committed after its registration, in commit order *)
-  Theorem live_exactly_the_matching_suffix reqs pubs sched i s left :
-    let st := w_st (wrun (winit true 0 reqs pubs) sched) in
+  Theorem live_exactly_the_matching_suffix persistent reqs pubs sched i s left :
+    let st := w_st (wrun (winit persistent 0 reqs pubs) sched) in
     nth_error (h_subs st) i = Some s -> hs_phase s = PLive left -> hs_disc s = false ->
-    hs_sent s = hist_part i (h_committed st) (hs_cut s) (hs_req s) ++
+    hs_sent s = hist_part i (h_committed st) (hs_cut s) (eff_req persistent (hs_req s)) ++
                 filter (mt i) (skipn (N.to_nat (hs_cut s)) (h_committed st)).
   Proof.
-    intros st E Ep Hd. destruct (replay_then_live reqs pubs sched i s E) as (_ & _ & _ & _ & G). exact (G left Ep Hd).
+    intros st E Ep Hd. destruct (replay_then_live persistent reqs pubs sched i s E) as (_ & _ & _ & _ & G). exact (G left Ep Hd).
   Qed.
 End P.
